@@ -121,11 +121,14 @@ def report_offence(ctx, stream, prop, cls, theorem, static_detail, probe, findin
         ctx.violation("no-failing-input-found", cls, detail, finding_id=finding_id)
 
 
-def dynamic_validation(ctx, name, probe_of, flagged: set, tie_prefix):
+def dynamic_validation(ctx, name, probe_of, flagged: set, tie_prefix, group_over=4):
     """every class: run the probe; a statically clean class with a dynamic witness is a violation
-    (the translator / classification table missed an effect)."""
+    (the translator / classification table missed an effect).  When more than `group_over` classes
+    fail the same probe the cause is shared (base class / a common helper): ONE violation is
+    reported, listing the classes and carrying the first witness."""
     from . import effects_dyn as D
     s = ctx.stream(name)
+    wit = {}
     for cls_name, cls in D.classes().items():
         if cls_name in flagged:
             s.count("skipped:statically-flagged")
@@ -140,7 +143,62 @@ def dynamic_validation(ctx, name, probe_of, flagged: set, tie_prefix):
         s.count("class-clean" if not w else "class-witness")
         ctx.oblige(f"{tie_prefix}:{cls_name}", w is None, detail=json.dumps(core.canon(w))[:400] if w else "")
         if w:
+            wit[cls_name] = w
             s.mismatches.append({"class": cls_name})
-            ctx.violation("failing-input", cls_name, dict(w, broken=f"{tie_prefix}:{cls_name}",
-                          explanation="the static effect check passes this class but the real code violates the property on this input"))
+            ctx.obligations[-1]["located"] = True
+    expl = "the static effect check passes this class but the real code violates the property on this input"
+    if len(wit) > group_over:
+        first = next(iter(wit))
+        ctx.violation("failing-input", "Metric (shared by %d classes)" % len(wit),
+                      dict(wit[first], broken=f"{tie_prefix}:*", affected_classes=sorted(wit),
+                           explanation="many classes fail the same probe: shared cause (base class metric.py or a common helper); first witness shown"))
+    else:
+        for cls_name, w in wit.items():
+            ctx.violation("failing-input", cls_name, dict(w, broken=f"{tie_prefix}:{cls_name}", explanation=expl))
     return s
+
+
+def base_offences(rep, method, placeholder):
+    """mirror of Effects.base_binds_fresh: atoms of base method `method` that store something other
+    than fresh storage / an immutable into the placeholder field"""
+    out = []
+    for k, sk in rep["base"].get(method, {}).items():
+        if sk is None:
+            out.append((k, "untranslated"))
+            continue
+        ats = EC.atoms(sk)
+        if not any(a[0] == "Bind" and a[1] == placeholder for a in ats):
+            out.append((k, f"no binding of {placeholder}"))
+        for a in ats:
+            if a[0] in ("Bind", "Append") and a[1] == placeholder and a[2][0] not in ("Fresh", "Imm"):
+                out.append((k, list(a)))
+            if a[0] == "InPlace" and a[1] == placeholder or a[0] == "Clobber":
+                out.append((k, list(a)))
+    return out
+
+
+def base_report(ctx, rep, theorem, method, placeholder, mode, files):
+    """metric.py copy discipline: if the translated base method stores an alias, look for a class
+    whose tensors really share storage and report ONE violation"""
+    from . import effects_dyn as D
+    offs = base_offences(rep, method, placeholder)
+    if not offs:
+        return False
+    w = None
+    for cls_name, cls in D.classes().items():
+        try:
+            _, w = D.probe_copies(cls_name, cls, mode)
+        except Exception:  # noqa: BLE001
+            w = None
+        if w:
+            break
+    detail = {"broken": theorem, "check": f"metric.py {method}() stores fresh storage into {placeholder}", "base_method": method,
+              "offending_statements": [[k, a] for k, a in offs],
+              "where": [f"{s_['method']}[{s_.get('kind')}]:{s_['line']}: {s_['src']}" for s_ in rep["sites"].get("Metric", []) if s_["method"] == method][:6]}
+    if w:
+        detail.update(w)
+        ctx.violation("failing-input", f"Metric.{method}", detail)
+    else:
+        ctx.violation("no-failing-input-found", f"Metric.{method}", detail)
+    mark_collateral(ctx, files, True)
+    return True
